@@ -125,6 +125,7 @@ mutual
     | .param p m, env, ws => by
       simp only [expandTextUnit, posixTextUnit]
       exact param_den m env ws p (resolve env p)
+    | .cmd b c, env, ws => by simp [expandTextUnit, posixTextUnit, cmdSubstPhrase, Phrase.toFields]
     | .arith t, env, ws => by
       simp only [expandTextUnit, posixTextUnit]
       by_cases hn : t.isNil = true
@@ -327,6 +328,7 @@ theorem parseTildeGo_no_colon (us : List WordUnit) (h : ∀ u ∈ us, isColonUni
       | bs c => rfl
       | param p m => rfl
       | arith t => rfl
+      | cmd b c => rfl
     | sq s => rfl
     | dsq s => rfl
     | dq t => rfl
